@@ -165,25 +165,51 @@ Definition wf_case (c : c01case) : bool :=
   | CMatrix _ _ => true
   | CMut _ _ ms => forallb wf_tree ms
   | CDel _ _ _ _ _ _ => true
+  | CRoomMut _ _ _ _ _ => true
   | CE2E (CMut _ _ ms) => forallb wf_tree ms
   | CE2E (CDel _ _ _ _ _ _) => true
+  | CE2E (CRoomMut _ _ _ _ _) => true
   | CE2E _ => false
   end.
+
+Lemma room_update_admin defs me rid date news :
+  run_C01 (CRoomMut defs me rid date news) = [0] ->
+  known_room defs rid && admin_at (evs_of defs rid) me date = true.
+Proof.
+  simpl. unfold known_room, evs_of.
+  induction defs as [|[id evs] tl IH]; simpl; [discriminate|].
+  destruct (N.eqb id rid) eqn:He; simpl; [|exact IH].
+  unfold validate_room_update. rewrite <- is_admin_admin_at.
+  destruct (is_admin (build id evs) me date); simpl; [reflexivity|discriminate].
+Qed.
 
 Theorem model_accepts_only_entitled c :
   wf_case c = true ->
   match c with CMatrix _ _ => True | _ => spec_C01 c (run_C01 c) = true end.
 Proof.
-  destruct c as [evs probes|defs me ms|defs me now ns es upd|inner]; intros Hwf; try exact I.
+  destruct c as [evs probes|defs me ms|defs me now ns es upd|defs me rid date news|inner]; intros Hwf; try exact I.
   - simpl in *. destruct (validate_all me (build_rooms defs) ms) eqn:Hv; simpl; try reflexivity.
     apply mutation_entitled; assumption.
   - simpl. destruct (validate_deletion me now (build_rooms defs) ns es upd) eqn:Hv; simpl; try reflexivity.
     destruct (deletion_entitled _ _ _ _ _ _ Hv) as (H1 & H2 & H3). rewrite H1, H2, H3. reflexivity.
-  - destruct inner as [evs probes|defs me ms|defs me now ns es upd|inner']; simpl in *; try discriminate.
+  - pose proof (room_update_admin defs me rid date news) as HR.
+    change (spec_C01 (CRoomMut defs me rid date news) (run_C01 (CRoomMut defs me rid date news)))
+      with (match run_C01 (CRoomMut defs me rid date news) with
+            | [v] => if Z.eqb v 0 then known_room defs rid && admin_at (evs_of defs rid) me date else true
+            | _ => false end).
+    destruct (run_C01 (CRoomMut defs me rid date news)) as [|v [|w l]] eqn:Hrun.
+    + simpl in Hrun. destruct (find (fun p => N.eqb (fst p) rid) defs); discriminate.
+    + destruct (Z.eqb v 0) eqn:Hv; [|reflexivity]. apply Z.eqb_eq in Hv. subst v. apply HR. reflexivity.
+    + simpl in Hrun. destruct (find (fun p => N.eqb (fst p) rid) defs); discriminate.
+  - destruct inner as [evs probes|defs me ms|defs me now ns es upd|defs me rid date news|inner']; simpl in *; try discriminate.
     + destruct (validate_all me (build_rooms defs) ms) eqn:Hv; simpl; try reflexivity.
       apply mutation_entitled; assumption.
     + destruct (validate_deletion me now (build_rooms defs) ns es upd) eqn:Hv; simpl; try reflexivity.
       destruct (deletion_entitled _ _ _ _ _ _ Hv) as (H1 & H2 & H3). rewrite H1, H2, H3. reflexivity.
+    + pose proof (room_update_admin defs me rid date news) as HR. simpl in HR.
+      destruct (find (fun p => N.eqb (fst p) rid) defs) as [p|] eqn:Hf; simpl; [|reflexivity].
+      destruct (validate_room_update me (build (fst p) (snd p)) date news) eqn:Hv; simpl; try reflexivity.
+      apply HR. reflexivity.
 Qed.
 
 (* the decisions of the real Room structure are the granted ones (matrix cases) *)
